@@ -114,6 +114,9 @@ class Loops:
             return self.unroll(node, st, fr, items)
         key = (f"{fr.module}:{fr.qualname}", self.loop_ordinal(fr, node))
         spec = ex.loop_specs.get(key)
+        if spec is None:
+            # a loop may also be named by its header text (robust against loops added before it)
+            spec = ex.loop_specs.get((key[0], f"for {pyast.unparse(node.target)} in {pyast.unparse(node.iter)}"))
         if spec is not None:
             return self.for_with_invariant(node, st, fr, itv, spec, key)
         return self.for_summary(node, st, fr, itv, key)
@@ -678,6 +681,10 @@ class Loops:
         spec name to the unique unclaimed variable the loop body assigns or mutates that has the declared type"""
         ex = self.ex
         assigned = []
+        # the loop's own target variables keep their last value after the loop
+        for n in pyast.walk(node.target) if hasattr(node, "target") else []:
+            if isinstance(n, pyast.Name) and n.id not in assigned:
+                assigned.append(n.id)
         for n in pyast.walk(pyast.Module(body=list(node.body), type_ignores=[])):
             tgt = None
             if isinstance(n, pyast.Name) and isinstance(n.ctx, pyast.Store):
@@ -909,6 +916,10 @@ class Loops:
     # ------------------------------------------------------------------------------------------
     def comprehension(self, node, st, fr, kind):
         ex = self.ex
+        if getattr(ex, "functional_lists", False) and kind == "list" and isinstance(node, pyast.ListComp):
+            r = self._comprehension_without(node, st, fr)
+            if r is not None:
+                return r
         # child scope
         eid = st.new_env({"__parent__": fr.env_id})
         from .exec import Frame
@@ -941,6 +952,39 @@ class Loops:
             else:
                 raise Unsupported("control flow out of comprehension")
         return res
+
+    def _comprehension_without(self, node, st, fr):
+        """[v for v in L if v != y] over a symbolic list L with y not depending on v: a definitional function"""
+        ex = self.ex
+        if len(node.generators) != 1:
+            return None
+        g = node.generators[0]
+        if not (isinstance(g.target, pyast.Name) and isinstance(node.elt, pyast.Name) and node.elt.id == g.target.id and len(g.ifs) == 1):
+            return None
+        c = g.ifs[0]
+        if not (isinstance(c, pyast.Compare) and len(c.ops) == 1 and isinstance(c.ops[0], pyast.NotEq) and isinstance(c.left, pyast.Name) and c.left.id == g.target.id):
+            return None
+        other = c.comparators[0]
+        if any(isinstance(n, pyast.Name) and n.id == g.target.id for n in pyast.walk(other)):
+            return None
+        out = []
+        for s, lv in ex.ev(g.iter, st, fr):
+            if self._is_raised(lv):
+                out.append((s, lv))
+                continue
+            if ex.B.concrete_items(s, lv) is not None:
+                return None
+            t = ex.ty_of(s, lv)
+            if not (isinstance(t, tuple) and t[0] == "list" and t[1] == "ast"):
+                return None
+            for s2, yv in ex.ev(other, s, fr):
+                if self._is_raised(yv):
+                    out.append((s2, yv))
+                    continue
+                if not (isinstance(yv, SV) and yv.ty == "ast"):
+                    return None
+                out.append((s2, s2.alloc(ListObj(sv=SV(ex.B.without_term(s2, lv, yv, "ast"), ("list", "ast"))))))
+        return out
 
     def materialize_view(self, st, v, kind):
         ex = self.ex
@@ -1056,6 +1100,56 @@ class Loops:
             conj.append(z3.ForAll(cs, f) if cs else f)
         body = z3.Implies(rng, z3.And(*conj)) if conj else z3.BoolVal(True)
         return [(st, ex.B._b(z3.ForAll([k], body)))]
+
+
+    def sum_call(self, st, fr, itv):
+        """sum(<symbolic sequence of bool / int>): the value is psum(n) of a fresh prefix-sum function psum with
+        psum(0) = 0 and psum(k+1) = psum(k) + val(k); the solver gets the definition (no induction), plus the two
+        consequences that need induction when every summand is 0 or 1: 0 <= psum(k) <= k and monotonicity.
+        Logged as ("sum", result, n, k, val) so that a contract can speak about the summands."""
+        ex = self.ex
+        k = z3.Int(f"k!{fresh_id()}")
+        itv = self.normalize_iter(st, itv)
+        s0 = st.fork()
+        base_pc = len(s0.pc)
+        base_created = len(s0.created)
+        n, elems = self.generic_elements(s0, fr, itv, k)
+        cases = []
+        boolean = True
+        for s, v in elems:
+            if self._is_raised(v):
+                raise Unsupported("sum over elements whose computation may raise")
+            if v is _SKIP:
+                cases.append((s.pc[base_pc:], z3.IntVal(0)))
+                continue
+            if s.created[base_created:]:
+                raise Unsupported("sum over elements that create objects")
+            if isinstance(v, bool):
+                t = z3.IntVal(1 if v else 0)
+            elif isinstance(v, int):
+                t = z3.IntVal(v)
+                boolean = boolean and v in (0, 1)
+            elif isinstance(v, SV) and v.ty == "bool":
+                t = z3.If(v.term, z3.IntVal(1), z3.IntVal(0))
+            elif isinstance(v, SV) and v.ty == "int":
+                t = v.term
+                boolean = False
+            else:
+                raise Unsupported(f"sum over {v!r}")
+            cases.append((s.pc[base_pc:], t))
+        val = z3.IntVal(0)
+        for d, t in reversed(cases):
+            val = z3.If(z3.And(*d), t, val) if d else t
+        psum = z3.Function(f"psum!{fresh_id()}", z3.IntSort(), z3.IntSort())
+        kk = z3.Int(f"kk!{fresh_id()}")
+        valk = z3.substitute(val, (k, kk))
+        st.assume(psum(0) == 0)
+        st.assume(z3.ForAll([kk], z3.Implies(z3.And(0 <= kk, kk < n), psum(kk + 1) == psum(kk) + valk), patterns=[psum(kk + 1)]))
+        if boolean:
+            st.assume(z3.ForAll([kk], z3.Implies(z3.And(0 <= kk, kk <= n), z3.And(0 <= psum(kk), psum(kk) <= kk)), patterns=[psum(kk)]))
+        res = SV(psum(n), "int")
+        st.log.append(("sum", res, n, k, val))
+        return [(st, res)]
 
 
 class _Skip:
